@@ -969,3 +969,78 @@ func throughField(v ssa.Value, d int) bool {
 	}
 	return false
 }
+
+// ---- padded lengths agree between encoder and decoder (C11.12) ----
+
+// padForms: the round-up expressions ((x + a) / m) * m and (x + a) &^ (m-1) of fn, as "a/m" strings.
+func padForms(fn *ssa.Function) map[string]token.Pos {
+	out := map[string]token.Pos{}
+	if fn == nil {
+		return out
+	}
+	instrs(fn, func(in ssa.Instruction) {
+		bo, ok := in.(*ssa.BinOp)
+		if !ok {
+			return
+		}
+		switch bo.Op {
+		case token.MUL:
+			m, okm := constInt(bo.Y)
+			q, okq := stripConv(bo.X).(*ssa.BinOp)
+			if !okm || !okq || q.Op != token.QUO {
+				return
+			}
+			m2, ok2 := constInt(q.Y)
+			add, okA := stripConv(q.X).(*ssa.BinOp)
+			if !ok2 || m2 != m || !okA || add.Op != token.ADD {
+				return
+			}
+			if a, okc := constInt(add.Y); okc {
+				out[fmt.Sprintf("+%d/%d", a, m)] = bo.Pos()
+			}
+		case token.AND_NOT:
+			k, okk := constInt(bo.Y)
+			add, okA := stripConv(bo.X).(*ssa.BinOp)
+			if !okk || !okA || add.Op != token.ADD {
+				return
+			}
+			if a, okc := constInt(add.Y); okc {
+				out[fmt.Sprintf("+%d/%d", a, k+1)] = bo.Pos()
+			}
+		}
+	})
+	return out
+}
+
+func init() {
+	registry["C11"].Meta.Rules["C11.12"] = "padded lengths agree: where an encoder and its decoder both round a length up with ((n + a) / m) * m, they use the same a and m (the version 1 compound member name is padded with a = 8 because the terminating NUL is not counted in n; a decoder that rounds with a = 7 lands 8 bytes early for every name whose length is a multiple of 8)"
+	registry["C11"].Rules = append(registry["C11"].Rules, func(c *Ctx, r *Result) {
+		pairs := [][2]string{{"core.EncodeCompoundDatatypeV1", "core.parseCompoundV1"}}
+		n := 0
+		for _, p := range pairs {
+			enc, dec := c.FnOpt(p[0]), c.FnOpt(p[1])
+			cons := p[0] + "~" + p[1] + "#same-padding"
+			if enc == nil || dec == nil {
+				r.Shortfall(c, "C11.12", "C11.12: "+p[0]+" or "+p[1]+" not found")
+				continue
+			}
+			pe, pd := padForms(enc), padForms(dec)
+			if len(pe) == 0 || len(pd) == 0 {
+				r.Undec("C11.12", cons, c.Pos(dec.Pos()), "one side does not round with ((n + a) / m) * m; not compared")
+				continue
+			}
+			n++
+			ke, kd := strings.Join(sortedKeys(pe), " "), strings.Join(sortedKeys(pd), " ")
+			pos := c.Pos(dec.Pos())
+			for _, k := range sortedKeys(pd) {
+				if _, ok := pe[k]; !ok {
+					pos = c.Pos(pd[k])
+				}
+			}
+			r.Check(ke == kd, "C11.12", cons, pos, "encoder rounds with "+ke+", decoder with "+kd)
+		}
+		if n == 0 {
+			r.Shortfall(c, "C11.12", "C11.12: no encoder/decoder pair with round-up expressions on both sides")
+		}
+	})
+}
